@@ -395,6 +395,50 @@ def history_obligations(report, guards, tier, patterns=None):
     return obs
 
 
+# ------------------------------------------------------------------------- cached entries are never modified in place
+def sweep_obligations(report, tier, patterns=None):
+    """One instance per pattern whose `data` keeps a snapshot of every array at the moment it is stored (WatchDict): every
+    description key is requested once (default cache settings); after each request every cached entry must still hold the
+    elements that were stored.  A changed entry becomes the history [entry, consumer, entry] for the solver and the replay."""
+    from aurel.core import descriptions
+    from symx.harness import watch
+    obs = []
+    pats = ['tensor'] if tier == 'quick' else ['tensor', 'components']
+    if patterns is not None:
+        pats = [p_ for p_ in pats if p_ in patterns]
+    n_req = 0
+    for pname in pats:
+        inputs, pre = pattern_inputs(pname)
+        c = Ctx(pre=pre, fork=False)
+        reported = set()
+        with use_ctx(c):
+            rel = watch(fresh(pname, inputs))
+            for k in sorted(descriptions):
+                if k in inputs:
+                    continue
+                try:
+                    rel[k]
+                except BaseException as e:  # noqa  (Inconclusive and anything a key needs that the pointwise harness lacks)
+                    if not isinstance(e, Exception) and not isinstance(e, Inconclusive):
+                        raise
+                    continue
+                n_req += 1
+                for key_, idx_, old_, new_ in rel.data.changed():
+                    if (key_, idx_) in reported:
+                        continue
+                    reported.add((key_, idx_))
+                    ta, tb = elem_terms(new_), elem_terms(old_)
+                    if ta is None or tb is None or len(ta) != len(tb):
+                        continue
+                    for q_, (x_, y_) in enumerate(zip(ta, tb)):
+                        obs.append(Ob(f"{pname}:{key_}|after={key_}>{k}>@default-cache{list(idx_)}" + ('' if len(ta) == 1 else '.im' if q_ else '.re'),
+                                      x_, y_, pre, group='cached entries are not modified in place (sweep over all keys)', meta=dict(key=key_)))
+    report.extra['sweep_requests'] = n_req
+    report.record('sweep: every description key requested once on a snapshotting cache', 'holds', group='cached entries are not modified in place (sweep over all keys)',
+                  kind='concrete', trivial=True)
+    return obs
+
+
 # ------------------------------------------------------------------------- helper-call histories
 def helper_calls():
     """(method, argument builder, tag): public helpers with array arguments.  A / B are two independent symbolic
@@ -671,11 +715,13 @@ def run_pattern(args):
                 obs = guard_step_obligations(rec, guards, tier, [pname])
                 obs += history_obligations(rec, guards, tier, [pname])
                 obs += helper_history_obligations(rec, tier, [pname])
+                obs += sweep_obligations(rec, tier, [pname])
             seen = ft.seen
         else:
             obs = guard_step_obligations(rec, guards, tier, [pname])
             obs += history_obligations(rec, guards, tier, [pname])
             obs += helper_history_obligations(rec, tier, [pname])
+            obs += sweep_obligations(rec, tier, [pname])
         envs = [{f'g{i}{j}': F(v) for (i, j), v in gr.DESIGNED_GAMMA[w].items()} for w in (0, 1)]
         rungs = [dict(name='full', envs=[None], timeout=30 if tier == 'quick' else 200),
                  dict(name='slices:metric-value-fixed', envs=envs, timeout=200 if tier == 'quick' else 600)]
@@ -730,6 +776,7 @@ def main(report, tier, seed, workers, calibrate=False):
             solver.STATS.by_backend[k] = solver.STATS.by_backend.get(k, 0) + v
         n_exec += res['extra'].get('guard_states_executed', 0)
         n_hist += res['extra'].get('histories_executed', 0)
+        report.extra['sweep_requests'] = report.extra.get('sweep_requests', 0) + res['extra'].get('sweep_requests', 0)
         report.extra['helper_histories_executed'] = report.extra.get('helper_histories_executed', 0) + res['extra'].get('helper_histories_executed', 0)
         if res['extra'].get('helper_histories_skipped'):
             report.extra.setdefault('helper_histories_skipped', []).extend(res['extra']['helper_histories_skipped'])
